@@ -81,6 +81,15 @@ def gen_system(rng, k, falsy=False):
             if mo:
                 d = fdims()
                 flows.append(dict(name=f"f{len(flows)} {p} => sysenv (stock)", frm=p, to="sysenv", arr=dict(dims=d, values=_marg(uni, X, d, mo))))
+    if lonely and rng.random() < 0.6:
+        # a stock at the process that no flow touches: what it takes up (or, with equal in- and outflow, nothing) is that process's
+        # whole balance, mirrored on the system environment
+        sd = ["t"] + rng.sample(["a", "b"], rng.randint(0, 1))
+        inflow = _marg(uni, X, sd, 1)
+        outflow = list(inflow) if rng.random() < 0.3 else [0] * len(inflow)
+        shp = [len(uni[l]["items"]) for l in sd]
+        stocks.append(dict(name=f"stock{len(stocks)} at the unused process", proc="unused process", dims=sd, inflow=inflow, outflow=outflow,
+                           stock=[int(v) for v in np.cumsum(np.array(inflow).reshape(shp) - np.array(outflow).reshape(shp), axis=0).flatten()]))
     # a stock without a process that holds the largest magnitude of the system (a reserve, a stock kept for reporting):
     # it takes no part in any balance, but the default tolerance is scaled to it as to every other stock
     dominant = rng.random() < 0.25
